@@ -537,6 +537,7 @@ type txCtx struct {
 	pruned   bool         // a PruneBlocks ran in this transaction
 	pendingB map[int]bool // blocks stored in this transaction
 	reversal bool         // set by cursor compare
+	pre      map[string]bool // pairs of the bucket before a cursor op that may delete
 }
 
 // failureItem reports whether a real-side item only signals "I could not"
@@ -673,6 +674,9 @@ func (s *sim) compareOp(o *txOp, tc *txCtx, m, r []string, lenient bool) bool {
 // pairInModelBucket reports whether item (key+encoded value, or bucket
 // name+"nil") is a pair of the bucket in the model transaction.
 func (s *sim) pairInModelBucket(tc *txCtx, path []string, item string) bool {
+	if tc.pre[item] {
+		return true
+	}
 	b := bucketAt(tc.mtx, path)
 	if b == nil {
 		return false
@@ -827,6 +831,15 @@ func (s *sim) runOps(rtx, mtx database.Tx, st *txStep) error {
 			s.probeLayers(o)
 		}
 		firedBefore := s.fired
+		tc.pre = nil
+		if o.kind == opCursor && tc.writable {
+			// the op may delete pairs it has shown before
+			tc.pre = map[string]bool{}
+			if b := bucketAt(mtx, o.path); b != nil {
+				_ = b.ForEach(func(k, v []byte) error { tc.pre[string(k)+encVal(v)] = true; return nil })
+				_ = b.ForEachBucket(func(k []byte) error { tc.pre[string(k)+"nil"] = true; return nil })
+			}
+		}
 		m := s.applyOp(mtx, o, false)
 		r := s.applyOp(rtx, o, true)
 		if s.fs.Frozen() {
